@@ -279,4 +279,19 @@ REGISTRY = {
         'assumptions': ['colorful\'s SGR strings and pygments\' style_for_token are opaque to the model: `sgr t` stands for str(styleattrs_to_colorful(style_for_token(token t))); '
                         'that every such string starts with the reset sequence (so writing it sets the state absolutely) is checked over all 32 attribute shapes on every run'],
     },
+    'C13': {
+        'theorems': ['PP.C13.marker_iff_on_path', 'PP.C13.shared_printed_in_full', 'PP.C13.marker_text', 'PP.C13.no_residue',
+                     'PP.Graph.unvisited_lt'],
+        'modules': ['PP.Model.Graph', 'PP.Props.C13'],
+        'sections': [{'name': 'graphs', 'run': simple_sec('sec_graphs', 'graphs_section')}],
+        'rule': 'object graphs of list / dict / tuple nodes; re-printing',
+        'assumptions': ['the visited set is modelled as the current DFS path (what the try/finally of the F10 repair guarantees); id() values are inputs'],
+    },
+    'C14': {
+        'theorems': ['PP.C14.contained', 'PP.C14.fault_free', 'PP.C14.independent', 'PP.C14.bad_return', 'PP.C14.bad_return_nested',
+                     'PP.C14.run_fault', 'PP.C14.run_noFault'],
+        'modules': ['PP.Model.Failures', 'PP.Props.C14'],
+        'sections': [{'name': 'failures', 'run': simple_sec('sec_graphs', 'failures_section')}],
+        'rule': 'every fault position x exception class x trailing/plain on all small trees of instrumented objects',
+    },
 }
